@@ -336,11 +336,13 @@ def netlist_cases(draw, max_nodes):
             other = draw(st.one_of(st.none(), st.integers(0, 7)))
             rn.append([a, other, 'rn_{}'.format(len(rn))])
         case['renames'] = rn
-    if draw(st.integers(0, 3)) == 0:
+    if draw(st.integers(0, 2)) == 0:
         # the judged text is requested from a generator object that already served other requests
         case['history'] = draw(st.lists(st.sampled_from(['hier_top', 'flat_top', 'hier_child', 'flat_child']), min_size=1, max_size=3))
         if draw(st.booleans()):
             case['expose'] = draw(st.integers(0, 7))
+            if draw(st.booleans()):
+                case['history'] = case['history'] + ['flat_top']      # the last earlier request ended on the module that is edited
     return case
 
 
